@@ -1,6 +1,6 @@
 (** C19 — property theorems only.  Each is closed by [exact] of a lemma proved in C19_Proofs*.v. *)
 From Coq Require Import ZArith List Reals Sorting.Permutation Sorting.Sorted.
-From LP Require Import Num NumR OrdLaws C19_Model C19_Proofs C19_Proofs_Lists C19_Proofs_Stats C19_Proofs_Overloads C19_Proofs_Session.
+From LP Require Import Num NumR OrdLaws C19_Model C19_Proofs C19_Proofs_Lists C19_Proofs_Stats C19_Proofs_Overloads C19_Proofs_Session C19_Proofs_Weighted C19_Proofs_Histories C19_Proofs_Partition.
 Import ListNotations.
 
 (** ** Workload_Distribution(workers,tasks): workers+1 non-decreasing indices from 0 to tasks whose
@@ -20,6 +20,17 @@ Print Assumptions C19_workload.
 Theorem C19_workload_zero_workers (t : nat) : workload 0 t = Exit.
 Proof. exact (workload_zero t). Qed.
 Print Assumptions C19_workload_zero_workers.
+
+(** the indices are a partition of the tasks: every task 0 <= j < tasks lies in the half-open block [l[k], l[k+1]) of exactly
+    one worker k *)
+Theorem C19_workload_partition (w t : nat) : (1 <= w)%nat ->
+  exists l, workload w t = Ok l /\
+  forall j, (0 <= j < Z.of_nat t)%Z ->
+    (exists k, (k < w)%nat /\ (nth k l 0 <= j < nth (S k) l 0)%Z) /\
+    (forall k k', (k < w)%nat -> (k' < w)%nat ->
+       (nth k l 0 <= j < nth (S k) l 0)%Z -> (nth k' l 0 <= j < nth (S k') l 0)%Z -> k = k').
+Proof. exact (workload_partition w t). Qed.
+Print Assumptions C19_workload_partition.
 
 (** ** Range(min,max,step): ascending [min, min+step, ...) below max with exactly ceil((max-min)/step) elements,
     descending when min > max, empty when min = max; the model's fuel suffices ([Some]).  For step <= 0 the
@@ -159,6 +170,37 @@ Theorem C19_transpose_two_lists {A : Type} (d : A) (v1 v2 : list A) :
   (length v1 <> length v2 -> transpose_lists2 d v1 v2 = Exit).
 Proof. exact (transpose2_spec d v1 v2). Qed.
 Print Assumptions C19_transpose_two_lists.
+
+(** the list templates against each other: Sub_List undoes Combine_Lists; with its inclusive upper index it cuts a list into
+    adjacent pieces (0..k and k+1..n-1) that Combine_Lists puts together again; List_Contains is the non-emptiness of
+    Find_Indices, whose length is the number of occurrences; Flatten_List of two rows is Combine_Lists; Transpose_Lists twice
+    is the identity on rectangular tables with at least one row and one column *)
+Theorem C19_sub_list_combine {A : Type} (v1 v2 : list A) :
+  sub_list (combine_lists v1 v2) 0 (Z.of_nat (length v1) - 1) = v1 /\
+  sub_list (combine_lists v1 v2) (Z.of_nat (length v1)) (Z.of_nat (length v1 + length v2) - 1) = v2.
+Proof. exact (conj (sub_list_combine_left v1 v2) (sub_list_combine_right v1 v2)). Qed.
+Print Assumptions C19_sub_list_combine.
+
+Theorem C19_sub_list_split {A : Type} (v : list A) (k : Z) : (0 <= k < Z.of_nat (length v))%Z ->
+  combine_lists (sub_list v 0 k) (sub_list v (k + 1) (Z.of_nat (length v) - 1)) = v.
+Proof. exact (sub_list_split v k). Qed.
+Print Assumptions C19_sub_list_split.
+
+Theorem C19_contains_iff_indices {A : Type} (eqb : A -> A -> bool) (l : list A) (x : A) :
+  list_contains eqb l x = negb (Nat.eqb (length (find_indices eqb l x)) 0) /\
+  length (find_indices eqb l x) = length (filter (fun a => eqb a x) l).
+Proof. exact (conj (list_contains_iff_indices eqb l x) (find_indices_count eqb l x)). Qed.
+Print Assumptions C19_contains_iff_indices.
+
+Theorem C19_flatten_pair_is_combine {A : Type} (v1 v2 : list A) : flatten_list [v1; v2] = combine_lists v1 v2.
+Proof. exact (flatten_pair_is_combine v1 v2). Qed.
+Print Assumptions C19_flatten_pair_is_combine.
+
+Theorem C19_transpose_involution {A : Type} (d : A) (lists : list (list A)) (l0 : list A) (rest : list (list A)) :
+  lists = l0 :: rest -> l0 <> [] -> Forall (fun l => length l = length l0) lists ->
+  exists t, transpose_lists d lists = Ok t /\ transpose_lists d t = Ok lists.
+Proof. exact (transpose_involution d lists l0 rest). Qed.
+Print Assumptions C19_transpose_involution.
 
 (** ** Locate_Closest_Location: for a sorted non-empty list the returned index is in range and its element
     is nearest to the target (ties, targets below the first and above the last element included);
@@ -351,6 +393,116 @@ Theorem C19_weighted_default_weights (l : list R) :
   (arithmetic_mean ROps l, standard_deviation ROps l / sqrt (INR (length l))).
 Proof. exact (weighted_default_weights l). Qed.
 Print Assumptions C19_weighted_default_weights.
+
+(** ** Weighted_Average with arbitrary (unequal) weights.  Cochran's formula as the library writes it (three sums around
+    Average * wAverage) is the closed form  avg = sum w v / sum w,  SE^2 = N/(N-1)/W/W * sum (w (v - avg))^2  — for every data
+    set (over R, x / 0 = 0; the formula is meaningful for W <> 0, N >= 2) *)
+Theorem C19_weighted_closed_form (d : list (R * R)) :
+  weighted_average ROps d =
+  (Rsum (map (fun p => snd p * fst p) d) / Rsum (map snd d),
+   sqrt (INR (length d) / (INR (length d) - 1) / Rsum (map snd d) / Rsum (map snd d)
+         * Rsum (map (fun p => (snd p * (fst p - Rsum (map (fun p => snd p * fst p) d) / Rsum (map snd d)))
+                             * (snd p * (fst p - Rsum (map (fun p => snd p * fst p) d) / Rsum (map snd d)))) d))).
+Proof. exact (weighted_average_closed_form d). Qed.
+Print Assumptions C19_weighted_closed_form.
+
+(* for at least two data points the radicand is non-negative: the standard error is a genuine square root *)
+Theorem C19_weighted_se_sqr (d : list (R * R)) : (2 <= length d)%nat ->
+  0 <= cochranR d /\ snd (weighted_average ROps d) * snd (weighted_average ROps d) = cochranR d.
+Proof. exact (fun H => conj (cochran_nonneg d H) (weighted_se_sqr d H)). Qed.
+Print Assumptions C19_weighted_se_sqr.
+
+(** permutation law, every data set and every weights *)
+Theorem C19_weighted_perm (d d' : list (R * R)) :
+  Permutation d d' -> weighted_average ROps d = weighted_average ROps d'.
+Proof. exact (weighted_average_perm d d'). Qed.
+Print Assumptions C19_weighted_perm.
+
+(* the rotation the correspondence check applies (op wlaws) *)
+Theorem C19_weighted_rotate (k : nat) (d : list (R * R)) :
+  weighted_average ROps (rotate_data k d) = weighted_average ROps d.
+Proof. exact (weighted_average_rotate k d). Qed.
+Print Assumptions C19_weighted_rotate.
+
+(** scaling laws: values times any real p -> (p * average, |p| * standard error); weights times any q <> 0 -> unchanged *)
+Theorem C19_weighted_scale_values (p : R) (d : list (R * R)) :
+  weighted_average ROps (scale_values ROps p d)
+  = (p * fst (weighted_average ROps d), Rabs p * snd (weighted_average ROps d)).
+Proof. exact (weighted_average_scale_values p d). Qed.
+Print Assumptions C19_weighted_scale_values.
+
+Theorem C19_weighted_scale_weights (q : R) (d : list (R * R)) : q <> 0 ->
+  weighted_average ROps (scale_weights ROps q d) = weighted_average ROps d.
+Proof. exact (weighted_average_scale_weights q d). Qed.
+Print Assumptions C19_weighted_scale_weights.
+
+(** translation law: values + c -> (average + c, the same standard error), for weights of non-zero sum *)
+Theorem C19_weighted_translate (c : R) (d : list (R * R)) : Rsum (map snd d) <> 0 ->
+  weighted_average ROps (shift_values ROps c d)
+  = (fst (weighted_average ROps d) + c, snd (weighted_average ROps d)).
+Proof. exact (weighted_average_shift_values c d). Qed.
+Print Assumptions C19_weighted_translate.
+
+(** positive weights: the weighted average lies between the smallest and the largest value *)
+Theorem C19_weighted_between (lo hi : R) (d : list (R * R)) :
+  d <> [] -> (forall p, In p d -> 0 < snd p /\ lo <= fst p <= hi) ->
+  lo <= fst (weighted_average ROps d) <= hi.
+Proof. exact (weighted_average_between lo hi d). Qed.
+Print Assumptions C19_weighted_between.
+
+(** ** Mean and median stay within the range of the data; the median of an odd number of data is the middle order statistic;
+    Standard_Deviation is the genuine square root of a non-negative Variance for at least two data *)
+Theorem C19_mean_between (lo hi : R) (l : list R) :
+  l <> [] -> (forall x, In x l -> lo <= x <= hi) -> lo <= arithmetic_mean ROps l <= hi.
+Proof. exact (mean_between lo hi l). Qed.
+Print Assumptions C19_mean_between.
+
+Theorem C19_median_between (lo hi : R) (l : list R) :
+  l <> [] -> (forall x, In x l -> lo <= x <= hi) -> lo <= median ROps l <= hi.
+Proof. exact (median_between lo hi l). Qed.
+Print Assumptions C19_median_between.
+
+Theorem C19_median_odd_is_datum (l : list R) : Nat.even (length l) = false ->
+  In (median ROps l) l /\ median ROps l = nth (length l / 2) (sort_list ROps l) 0.
+Proof. exact (median_odd_is_datum l). Qed.
+Print Assumptions C19_median_odd_is_datum.
+
+Theorem C19_stddev_sqr (l : list R) : (2 <= length l)%nat ->
+  0 <= variance ROps l /\ standard_deviation ROps l * standard_deviation ROps l = variance ROps l.
+Proof. exact (fun H => conj (variance_nonneg l H) (stddev_sqr l H)). Qed.
+Print Assumptions C19_stddev_sqr.
+
+(** ** Either orientation of the grids: the descending grid is the ascending one read backwards *)
+Theorem C19_linear_space_reverse (mn mx : R) (steps : nat) : (2 <= steps)%nat ->
+  linear_space ROps mx mn steps = rev (linear_space ROps mn mx steps).
+Proof. exact (linear_space_reverse mn mx steps). Qed.
+Print Assumptions C19_linear_space_reverse.
+
+Theorem C19_log_space_reverse (mn mx : R) (steps : nat) : (2 <= steps)%nat ->
+  log_space ROps mx mn steps = rev (log_space ROps mn mx steps).
+Proof. exact (log_space_reverse mn mx steps). Qed.
+Print Assumptions C19_log_space_reverse.
+
+(** ** Object histories: one vector handed to any sequence of Arithmetic_Mean / Variance / Standard_Deviation / Median calls
+    (Median reorders it).  Every call of every history answers as the same call on the original data, the vector stays a
+    permutation of the data (the data themselves while no Median was called), and a call answers the same after any two
+    histories — by induction over the history, for histories of any length *)
+Theorem C19_stat_history (l : list R) (ops : list stat_op) :
+  Permutation (fst (stat_history ROps l ops)) l /\
+  snd (stat_history ROps l ops) = map (fun o => stat_answer ROps o l) ops.
+Proof. exact (stat_history_spec l ops). Qed.
+Print Assumptions C19_stat_history.
+
+Theorem C19_stat_history_state (l : list R) (ops : list stat_op) :
+  fst (stat_history ROps l ops) = if existsb (fun o => match o with OpMedian => true | _ => false end) ops
+                                  then sort_list ROps l else l.
+Proof. exact (stat_history_state l ops). Qed.
+Print Assumptions C19_stat_history_state.
+
+Theorem C19_stat_history_independent (l : list R) (h h' : list stat_op) (o : stat_op) :
+  last (snd (stat_history ROps l (h ++ [o]))) 0 = last (snd (stat_history ROps l (h' ++ [o]))) 0.
+Proof. exact (stat_history_independent l h h' o). Qed.
+Print Assumptions C19_stat_history_independent.
 
 (** ** Sessions: the helpers are functions of their arguments alone.  "meet their specs" for every call of a process, not
     only the first one in a pristine process: whatever ambient state (errno, floating-point exception flags, stream
